@@ -233,7 +233,10 @@ def run(R):
             if rc == 0 and isinstance(doc, dict) and doc.get("matches") and sb.snapshot() == mid:
                 fails.append({"why": "replace --output json: exit 0 and matches reported, but nothing was replaced", "pattern": word})
             mid = sb.snapshot()
-            run_cmd(sb, ["replace", "--no-regex", word, word + "z", "--dry-run", "--output", "json"], "Plan", "replace --dry-run")
+            # every combination of --quiet / --dry-run / --preview with --output json still writes the document
+            for eo in (["--dry-run"], ["--dry-run", "--quiet"], ["--quiet", "--dry-run", "--preview", "diff"], ["--dry-run", "--preview", "none"]):
+                run_cmd(sb, ["replace", "--no-regex", word, word + "z", "--output", "json"] + eo, "Plan", "replace " + " ".join(eo))
+                run_cmd(sb, ["replace", "--no-regex", "zz_no_such_text", "y", "--output", "json"] + eo, "Plan", "replace (no match) " + " ".join(eo))
             if sb.snapshot() != mid:
                 fails.append({"why": "replace --dry-run --output json changed the tree"})
             run_cmd(sb, ["replace", "(", "x", "--output", "json"], "Plan", "replace (invalid regex)", expect_fail=True)
